@@ -248,7 +248,7 @@ impl<'tcx> Interp<'tcx> {
             BinOp::Div => Val::Int(ops::div(a, b, ty)),
             BinOp::Rem => Val::Int(ops::rem(a, b, ty)),
             BinOp::BitAnd => Val::Int(ops::bitand(a, b, ty)),
-            BinOp::BitOr => Val::Int(ops::bitor(a, b, ty)),
+            BinOp::BitOr => Val::Int(ops::bitor_disjoint(a, b, ty, &at).unwrap_or_else(|| ops::bitor(a, b, ty))),
             BinOp::BitXor => Val::Int(ops::bitxor(a, b, ty)),
             BinOp::Shl | BinOp::ShlUnchecked => Val::Int(ops::shl(a, b, ty, &at)),
             BinOp::Shr | BinOp::ShrUnchecked => Val::Int(ops::shr(a, b, ty, &at)),
@@ -625,6 +625,9 @@ impl<'tcx> Interp<'tcx> {
 
     pub fn site_visit(&mut self, key: &str, ok: bool, witness: String) {
         let root = self.cur_root.clone();
+        if !ok {
+            self.viol_events += 1;
+        }
         let ctx = if ok { String::new() } else { self.call_path() };
         if let Some(s) = self.sites.get_mut(key) {
             s.visits += 1;
@@ -665,6 +668,7 @@ impl<'tcx> Interp<'tcx> {
     pub fn replay_violations(&mut self, viol: &[(String, Vec<String>)]) {
         let base = self.call_path();
         let root = self.cur_root.clone();
+        self.viol_events += viol.len() as u64;
         for (key, rels) in viol {
             if let Some(s) = self.sites.get_mut(key) {
                 s.visits += 1;
